@@ -55,6 +55,8 @@ SCHEMAS = {
     "lab-telemetry": ([S + "/lab-telemetry.yang"], [S]),
     "verif-unionshapes": ([S + "/verif-unionshapes.yang"], [S]),
     "verif-choices": ([S + "/verif-choices.yang"], [S]),
+    # the import of vs-main is resolved through the input file's own directory: no include path
+    "verif-sibling": ([S + "/sibling/vs-main.yang"], []),
     "verif-pkgclash": ([S + "/pkgclash/vpc-probes.yang", S + "/pkgclash/probes.yang"], [S + "/pkgclash"]),
     "verif-multi": ([S + "/multi/vm-base.yang", S + "/multi/vm-aug-a.yang", S + "/multi/vm-aug-b.yang", S + "/multi/vm-aug-c.yang", S + "/multi/vm-types.yang", S + "/multi/vm-Types.yang"], [S + "/multi"]),
     "cts": (["integration_tests/schemaops/yang/ctestschema.yang", "integration_tests/schemaops/yang/ctestschema-rootmod.yang"], ["integration_tests/schemaops/yang"]),
@@ -100,6 +102,7 @@ QUICK_COMBOS = [
     ("verif-action", "go", "compress-rich-simple"), ("verif-action", "go", "paths"), ("verif-action", "proto", "proto-hier-compress"),
     ("lab-telemetry", "proto", "proto-flat"), ("verif-unionshapes", "go", "compress-rich-simple"), ("verif-unionshapes", "proto", "proto-flat"),
     ("verif-choices", "go", "compress-rich-simple"), ("verif-choices", "go", "compress-opstate"), ("verif-choices", "go", "paths"),
+    ("verif-sibling", "go", "uncompressed-rich"), ("verif-sibling", "proto", "proto-flat"),
     ("verif-pkgclash", "go", "paths-split-builder"), ("verif-pkgclash", "go", "paths-split"), ("verif-multi", "go", "paths-split-builder"),
     ("verif-multi", "go", "compress-rich-simple"), ("verif-multi", "go", "uncompressed-rich"), ("verif-multi", "proto", "proto-hier-compress"),
     ("cts", "go", "compress-rich-simple"), ("uts", "go", "uncompressed-rich"), ("tm-enum-module", "go", "compress-opstate"), ("tm-enum-union", "go", "compress-rich-simple"),
@@ -345,6 +348,9 @@ def generate(info, combo, mapmode, sites, outdir, workdir, keep=False, relocate=
         # the generator's inputs: working directory (all paths given are absolute), time zone,
         # locale, home directory, user name
         cwd = os.path.dirname(info["generator"])
+        # YANGPATH is what the goyang command line tool searches; it names a directory holding other
+        # versions of modules and is not one of the generator's inputs
+        env["YANGPATH"] = os.path.join(S, "sibling-decoy")
         env.update({"TZ": "Pacific/Kiritimati", "LANG": "tr_TR.UTF-8", "LC_ALL": "tr_TR.UTF-8", "HOME": cwd, "USER": "someone-else", "PWD": cwd})
     try:
         for attempt in range(50):
@@ -643,7 +649,7 @@ def run_combo(args):
                 if rc != 0 or got != ref:
                     f, detail = first_diff(refdir, out, ref, got)
                     res["violations"].append({"combo": list(combo), "map": "canon", "sites": None, "rc": rc, "file": f, "environment": "relocated-binary",
-                                              "detail": "the same generator binary at another path, run from another working directory with another time zone, locale, home and user, produces different output; " + detail})
+                                              "detail": "the same generator binary at another path, run from another working directory with another time zone, locale, home, user and YANGPATH, produces different output; " + detail})
         if not res["violations"] and flagset in INPROC_FLAGSETS:
             inproc_leg(info, combo, tier, r, workdir, res)
         res["wall_s"] = round(time.time() - t0, 2)
